@@ -868,6 +868,30 @@ def gen_implicit_array_init(lvalue, code, codegen):
         gen_static_array_init(lvalue.implicit_decl, code, codegen)
 
 
+def gen_code_for_condition(cond, code, codegen, negate=False):
+    # Leaves an INTEGER on the stack for a following jz: zero exactly
+    # when the condition is false (with negate: when it is true). A
+    # condition is true when its value is not zero, whatever its
+    # numeric type; it is neither rounded to an INTEGER nor inverted
+    # bit by bit.
+    codegen.gen_code_for_node(cond, code)
+    is_boolean = (isinstance(cond, expr.BinaryOp) and
+                  cond.op.is_comparison)
+    if cond.type == expr.Type.INTEGER:
+        if not negate:
+            return
+        if is_boolean:
+            # -1 or 0
+            code.add(('not',))
+            return
+    type_char = cond.type.type_char
+    code.add(
+        (f'push{type_char}', 0),
+        ('cmp',),
+        ('eq' if negate else 'ne',),
+    )
+
+
 def gen_code_for_args(args, param_types, code, codegen):
     for arg, param_type in zip(args, param_types):
         if isinstance(arg, expr.Lvalue):
@@ -1440,18 +1464,15 @@ def gen_loop(node, code, codegen):
 
     code.add(('_label', do_label))
     if node.kind.startswith('do_'):
-        codegen.gen_code_for_node(node.cond, code)
-        gen_code_for_conv(expr.Type.INTEGER, node.cond, code, codegen)
-        if node.kind == 'do_until':
-            code.add(('not',))
+        gen_code_for_condition(node.cond, code, codegen,
+                               negate=(node.kind == 'do_until'))
         code.add(('jz', loop_label))
 
     gen_code_for_block(node.body, code, codegen)
 
     if node.kind.startswith('loop_'):
-        codegen.gen_code_for_node(node.cond, code)
-        if node.kind == 'loop_while':
-            code.add(('not',))
+        gen_code_for_condition(node.cond, code, codegen,
+                               negate=(node.kind == 'loop_while'))
         code.add(('jz', do_label))
     else:
         code.add(('jmp', do_label))
@@ -1628,8 +1649,7 @@ def gen_if_block(node, code, codegen):
     for cond, body in node.if_blocks:
         else_label = codegen.get_label('else')
 
-        codegen.gen_code_for_node(cond, code)
-        gen_code_for_conv(expr.Type.INTEGER, cond, code, codegen)
+        gen_code_for_condition(cond, code, codegen)
         code.add(('jz', else_label))
 
         if cur_else_stmt and codegen.debug_info_enabled:
@@ -1662,8 +1682,7 @@ def gen_if_stmt(node, code, codegen):
     else_label = codegen.get_label('else')
     endif_label = codegen.get_label('endif')
 
-    codegen.gen_code_for_node(node.cond, code)
-    gen_code_for_conv(expr.Type.INTEGER, node.cond, code, codegen)
+    gen_code_for_condition(node.cond, code, codegen)
     code.add(('jz', else_label))
     gen_code_for_block(node.then_stmts, code, codegen)
     code.add(('jmp', endif_label))
@@ -1962,8 +1981,7 @@ def gen_while_block(node, code, codegen):
     wend_label = codegen.get_label('wend')
 
     code.add(('_label', check_label))
-    codegen.gen_code_for_node(node.cond, code)
-    gen_code_for_conv(expr.Type.INTEGER, node.cond, code, codegen)
+    gen_code_for_condition(node.cond, code, codegen)
     code.add(('jz', wend_label))
 
     code.add(('_label', body_label))
